@@ -865,49 +865,20 @@ pub fn select_create_own_default() {
     witness!(o.chosen[0] == (NR - 2) as u32, "older_own_type_rule_beats_newer_default_rule");
     witness!(o.chosen[0] == (NR - 1) as u32, "default_rule_as_fallback");
 }
-/// contract creation with constructor (CreateContractWithCtorHostFn): one listed own-type rule + one unlisted rule
-/// (two listed rules with this variant exhaust 12 GB)
-#[kani::proof]
-#[kani::unwind(98)]
-pub fn select_create_ctor_one_own_rule() {
-    let sc = scenario_shaped(&shape(0, 1), [CREATE_CTOR, CREATE_CTOR], 1, 2, 1, CAP as u32);
-    let e = Env::default();
-    let (rule, cx, signers) = stellar_accounts::smart_account::get_validated_context(&e, &sc.ctx[0], &sc.keys);
-    let o = reference_phases(&sc, false, P_SELECT);
-    prop!(o.query_trace && o.complete, "C03.select.rules_tried_in_precedence_order_with_exactly_the_rule_signers_supplied");
-    prop!(o.covered && o.chosen[0] == (NR - 1) as u32, "C03.select.context_covered_by_a_live_satisfied_rule");
-    prop!(rule == sc.rules[NR - 1].rule, "C03.select.returns_the_first_satisfied_rule_in_precedence_order");
-    prop!(signers == intersect(&sc.rules[NR - 1].rule.signers, &sc.keys), "C03.select.returns_exactly_the_rule_signers_supplied");
-    prop!(cx == sc.ctx[0], "C03.select.returns_the_context");
-    witnesses_one_rule(&sc, &o);
-    end_checks(DECLARED_1);
-}
+// (CreateContractWithCtorHostFn contexts: even one listed rule exhausts 12 GB in the SAT solver - 5.4 M variables; the
+// variant shares its rule-type derivation with CreateContractHostFn and is not covered by a harness)
+
 /// any shape (symbolic kinds), converse only (no trace comparison)
 #[kani::proof]
 #[kani::unwind(98)]
 pub fn select_any_accepts() {
     select_accepts(&[ANY; NR], CALL, 2, 1);
 }
-#[kani::proof]
-#[kani::unwind(98)]
-pub fn select_create_any_accepts() {
-    select_accepts(&[ANY; NR], CREATE, 2, 1);
-}
 /// thorough: up to 2 policies per rule
 #[kani::proof]
 #[kani::unwind(98)]
 pub fn select_own_own_2pol() {
     let _ = select(&shape(1, 1), CALL, 2, 2);
-}
-#[kani::proof]
-#[kani::unwind(98)]
-pub fn select_own_default_2pol() {
-    let _ = select(&shape(1, 2), CALL, 2, 2);
-}
-#[kani::proof]
-#[kani::unwind(98)]
-pub fn select_default_default_2pol() {
-    let _ = select(&shape(2, 2), CALL, 2, 2);
 }
 // (three listed rules at CAP = 3, bytes32: 12 GB are not enough for the SAT instance; not registered)
 
@@ -917,14 +888,6 @@ pub fn select_default_default_2pol() {
 pub fn check_auth_one_default_rule() {
     let sc = scenario_shaped(&shape(0, 2), [CALL, CALL], 1, 2, 2, 2);
     run(&sc, true);
-    let _ = soundness(&sc, DECLARED_1);
-}
-/// the whole check, library function: one listed rule of the context's own type (contract creation)
-#[kani::proof]
-#[kani::unwind(98)]
-pub fn check_auth_one_own_rule() {
-    let sc = scenario_shaped(&shape(0, 1), [CREATE, CREATE], 1, 2, 2, 2);
-    run(&sc, false);
     let _ = soundness(&sc, DECLARED_1);
 }
 /// converse of `check_auth_one_default_rule` (library function directly)
